@@ -344,4 +344,209 @@ Proof.
   - rewrite rev_involutive in St. exists s1. split; [exact ST|]. split; [exact SB|]. split; [exact St|].
     now apply stored_abs.
 Qed.
+
+(* ---------- acquire_block into the temporary of a position (register or spill slot) ---------- *)
+Lemma x86_acquire_block_tpos_ok pos k lc s sp rv h2 F :
+  let cs := fst (acquire_block (tpos k) lc) in
+  (k < MAXPOS)%N ->
+  code_at im pos cs -> labels_at im pos cs -> frame_ok s sp ->
+  rget s HEAP = Some rv -> is_blk rv -> rget s FREE = Some h2 ->
+  (hword s rv = 0 -> is_blk h2) ->
+  (hword s rv = 0 -> hword s h2 <> 0 ->
+     (forall off, off = 16 \/ off = 32 \/ off = 48 -> hword s (h2 + off) = 0 \/ is_blk (hword s (h2 + off))) /\
+     bounded 3 s (hword s h2)) ->
+  exists s', steps im pos s (pnth pos (List.length cs)) s' /\
+    st_eqB (abs_heap (Heap.frontier (snd (Heap.acquire (abs_heap F s)))) s') (snd (Heap.acquire (abs_heap F s))) /\
+    lget s' sp (tpos k) = Some rv /\ fst (Heap.acquire (abs_heap F s)) = rv /\
+    (forall l, loc_ok l -> l <> tpos k -> l <> XR TEMP -> l <> XR HEAP -> l <> XR FREE -> lget s' sp l = lget s sp l) /\
+    out s' = out s /\ frame_ok s' sp /\ nonblk_same s s'.
+Proof.
+  intros cs Hk HC HL FR R Hb Rf Hb2 Hch. unfold cs in *. clear cs.
+  pose proof (tpos_loc_ok k Hk) as LK. destruct (tpos_not_reserved k) as (N0 & NT & NH & NF & _).
+  destruct (tpos k) as [r|q] eqn:Et; cbn [loc_ok] in LK.
+  - destruct (x86_acquire_block_reg_frame im pos r lc s sp rv h2 F HC HL FR) as (s' & ST & EQ & Rr & Ef & Oth & Stk & Out & FR' & NB); auto; try congruence.
+    exists s'. split; [exact ST|]. split; [exact EQ|]. split; [exact Rr|]. split; [exact Ef|]. split; [|auto].
+    intros l Ll N1 N2 N3 N4. destruct l as [r'|q']; cbn [lget].
+    + apply Oth; congruence.
+    + unfold sget. now rewrite Stk.
+  - destruct (x86_acquire_block_spill_frame im pos q lc s sp rv h2 F HC HL FR LK R Hb Rf Hb2 Hch) as (s' & ST & EQ & Rr & Ef & Oth & Slots & Out & FR' & NB).
+    exists s'. split; [exact ST|]. split; [exact EQ|]. split; [exact Rr|]. split; [exact Ef|]. split; [|auto].
+    intros l Ll N1 N2 N3 N4. destruct l as [r'|q']; cbn [lget loc_ok] in *.
+    + apply Oth; congruence.
+    + apply Slots; auto. congruence.
+Qed.
+
+(* ---------- the shape of x_store for one block ---------- *)
+Lemma x_store_one_block_shape to_store remaining lc cs lc' :
+  (1 <= List.length to_store <= 3)%nat ->
+  x_store to_store remaining lc = Ok (cs, lc') ->
+  exists sv, store_values (rev to_store) remaining HEAP 3 = Ok sv /\
+    (2 * N.of_nat (List.length remaining) < MAXPOS)%N /\
+    cs = sv ++ fst (acquire_block (tpos (2 * N.of_nat (List.length remaining))) lc) /\
+    lc' = snd (acquire_block (tpos (2 * N.of_nat (List.length remaining))) lc).
+Proof.
+  intros Hlen H. unfold x_store in H. cbn [store_fields] in H.
+  destruct to_store as [|x r]; [cbn in Hlen; lia|].
+  change (FIELDS_PER_BLOCK - bp_n Last)%N with 3%N in H.
+  assert (Hle : N.leb (N.of_nat (List.length (x :: r))) 3 = true) by (apply N.leb_le; cbn [List.length] in *; lia).
+  rewrite Hle in H. change (N.to_nat 0) with 0%nat in H. cbn [firstn skipn] in H.
+  rewrite app_nil_r in H. cbn [rbind] in H.
+  destruct (store_values (rev (x :: r)) remaining HEAP 3) as [sv|] eqn:Esv; [|discriminate]. cbn [rbind] in H.
+  destruct (x_fresh Fst remaining) as [t|] eqn:Et; [|discriminate]. cbn [rbind] in H.
+  apply x_fresh_tpos in Et as [-> Hk]. cbn [tnum_n] in *. rewrite N.add_0_r in *.
+  destruct (acquire_block (tpos (2 * N.of_nat (List.length remaining))) lc) as [c2 lc2] eqn:EA.
+  cbn [List.length store_fields rbind] in H. inversion H.
+  exists sv. split; [reflexivity|]. split; [exact Hk|]. cbn [fst snd]. now rewrite app_nil_r.
+Qed.
+
+(* ---------- 2. x_store of one block = Heap.alloc ---------- *)
+Theorem x86_store_one_block_ok pos to_store remaining lc cs lc' s sp rv h2 F val :
+  x_store to_store remaining lc = Ok (cs, lc') ->
+  (1 <= List.length to_store <= 3)%nat ->
+  code_at im pos cs -> labels_at im pos cs ->
+  frame_ok s sp ->
+  rget s HEAP = Some rv -> is_blk rv -> rget s FREE = Some h2 ->
+  (hword s rv = 0 -> is_blk h2) ->
+  (hword s rv = 0 -> hword s h2 <> 0 ->
+     (forall off, off = 16 \/ off = 32 \/ off = 48 -> hword s (h2 + off) = 0 \/ is_blk (hword s (h2 + off))) /\
+     bounded 3 s (hword s h2)) ->
+  vals_ok s sp val (List.length remaining) to_store ->
+  let E := List.length remaining in
+  let n := List.length to_store in
+  let res := Heap.alloc (Heap.pad 3 (fsts val E to_store)) (abs_heap F s) in
+  exists s', steps im pos s (pnth pos (List.length cs)) s' /\
+    st_eqB (abs_heap (Heap.frontier (snd res)) s') (snd res) /\
+    fst res = rv /\
+    lget s' sp (tpos (2 * N.of_nat E)) = Some rv /\
+    (forall i, (i < n)%nat -> hword s' (rv + field_offset Snd (3 - N.of_nat n + N.of_nat i)) = snd_slot val (E + i)) /\
+    (forall k, (k < MAXPOS)%N -> k <> (2 * N.of_nat E)%N -> lget s' sp (tpos k) = lget s sp (tpos k)) /\
+    out s' = out s /\ frame_ok s' sp.
+Proof.
+  intros Hst Hlen HC HL FR R Hb Rf Hb2 Hch V E n res.
+  destruct (x_store_one_block_shape _ _ _ _ _ Hlen Hst) as (sv & Hsv & Hk & -> & _).
+  apply code_at_app2 in HC as [HC1 HC2]. apply labels_at_app2 in HL as [_ HL2].
+  destruct (x86_store_values_ok pos to_store remaining 3 sv s sp rv F val Hsv ltac:(auto) ltac:(lia) HC1 FR R Hb V)
+    as (s1 & ST1 & SB1 & St & EQ1).
+  fold E in St, EQ1, Hk, HC2, HL2.
+  assert (RH : reg_or0 s HEAP = rv) by (unfold reg_or0; now rewrite R).
+  assert (RF : reg_or0 s FREE = h2) by (unfold reg_or0; now rewrite Rf).
+  unfold link_slot in EQ1. cbn [N.eqb Pos.eqb] in EQ1. rewrite app_nil_r in EQ1. change (N.to_nat 3) with 3%nat in EQ1.
+  rewrite RH, RF in EQ1.
+  assert (Eres : res = Heap.acquire {| Heap.m := Heap.set_ps (abs_mem s) rv (Heap.pad 3 (fsts val E to_store));
+                                       Heap.heap := rv; Heap.free := h2; Heap.frontier := F |}).
+  { unfold res, Heap.alloc. cbn [abs_heap Heap.m Heap.heap Heap.free Heap.frontier]. now rewrite RH, RF. }
+  set (A1 := {| Heap.m := Heap.set_ps (abs_mem s) rv (Heap.pad 3 (fsts val E to_store));
+                Heap.heap := rv; Heap.free := h2; Heap.frontier := F |}) in *.
+  clearbody res. subst res.
+  (* the state after the stores: allocator registers and all block headers are as before *)
+  assert (FR1 : frame_ok s1 sp) by (eapply same_but_temp_frame; eauto).
+  assert (R1 : rget s1 HEAP = Some rv) by (destruct SB1 as (A & _); rewrite A by discriminate; exact R).
+  assert (Rf1 : rget s1 FREE = Some h2) by (destruct SB1 as (A & _); rewrite A by discriminate; exact Rf).
+  assert (Hdr : forall x, is_blk x -> hword s1 x = hword s x) by (intros x Hx; eapply stored_blk_hdr; eauto; lia).
+  assert (Hb21 : hword s1 rv = 0 -> is_blk h2) by (rewrite Hdr by auto; exact Hb2).
+  assert (Hch1 : hword s1 rv = 0 -> hword s1 h2 <> 0 ->
+     (forall off, off = 16 \/ off = 32 \/ off = 48 -> hword s1 (h2 + off) = 0 \/ is_blk (hword s1 (h2 + off))) /\
+     bounded 3 s1 (hword s1 h2)).
+  { intros H0 Hn0. pose proof (Hb21 H0) as Hbh2.
+    assert (Hne : h2 <> rv) by (intros ->; contradiction).
+    rewrite Hdr in H0, Hn0 by auto. destruct (Hch H0 Hn0) as [Kids [B1 B2]]. split.
+    - intros off Hoff. rewrite (stored_other_blk _ _ _ _ _ _ _ h2 off St) by (auto; lia). now apply Kids.
+    - rewrite Hdr by auto. split; [|exact B2]. intros x Hx. rewrite Hdr by auto. now apply B1. }
+  destruct (x86_acquire_block_tpos_ok _ _ lc s1 sp rv h2 F Hk HC2 HL2 FR1 R1 Hb Rf1 Hb21 Hch1)
+    as (s2 & ST2 & EQ2 & Rr & Ef & Oth & Out & FR2 & NB).
+  destruct (acquire_st_eqB (abs_heap F s1) A1 EQ1) as [Efst Esnd].
+  { cbn [abs_heap Heap.heap]. unfold reg_or0. now rewrite R1. }
+  { cbn [abs_heap Heap.heap Heap.free Heap.m]. unfold reg_or0. rewrite R1, Rf1. exact Hb21. }
+  { cbn [abs_heap Heap.heap Heap.free Heap.m]. unfold reg_or0. rewrite R1, Rf1. intros H0 Hn0.
+    destruct (Hch1 H0 Hn0) as [Kids _]. cbn [abs_mem Heap.ps]. repeat (apply Forall_cons; [apply Kids; auto|]). apply Forall_nil. }
+  assert (EFr : Heap.frontier (snd (Heap.acquire (abs_heap F s1))) = Heap.frontier (snd (Heap.acquire A1)))
+    by (destruct Esnd as (_ & _ & A & _); exact A).
+  exists s2. split; [eapply steps_app_len; eassumption|].
+  split; [rewrite <- EFr; eapply st_eqB_trans; eassumption|].
+  split; [rewrite <- Efst; exact Ef|].
+  split; [exact Rr|].
+  split; [|split; [|split]].
+  - intros i Hi. destruct (nth_error to_store i) as [b|] eqn:Eb; [|apply nth_error_None in Eb; unfold n in *; lia].
+    rewrite NB by (apply field_not_blk; [exact Hb|unfold n in *; lia]).
+    destruct St as (S1 & _). destruct (S1 i b Eb) as [A _]. exact A.
+  - intros k Hk' Hne. rewrite Oth.
+    + apply same_but_temp_lget; [exact SB1|apply tpos_not_temp].
+    + now apply tpos_loc_ok.
+    + intro Eq. apply tpos_inj in Eq. contradiction.
+    + apply tpos_not_reserved.
+    + apply tpos_not_reserved.
+    + apply tpos_not_reserved.
+  - rewrite Out. destruct SB1 as (_ & _ & A). exact A.
+  - exact FR2.
+Qed.
+
+(* ---------- nothing to store: the null pointer ---------- *)
+Theorem x86_store_empty_ok pos remaining lc cs lc' s sp :
+  x_store [] remaining lc = Ok (cs, lc') ->
+  code_at im pos cs -> frame_ok s sp ->
+  lc' = lc /\
+  exists s', steps im pos s (pnth pos (List.length cs)) s' /\
+    lget s' sp (tpos (2 * N.of_nat (List.length remaining))) = Some 0 /\
+    (forall l, loc_ok l -> l <> tpos (2 * N.of_nat (List.length remaining)) -> l <> XR TEMP -> lget s' sp l = lget s sp l) /\
+    heap s' = heap s /\ out s' = out s /\ frame_ok s' sp.
+Proof.
+  intros H HC FR. unfold x_store in H. cbn [List.length store_fields] in H.
+  destruct (x_fresh Fst remaining) as [t|] eqn:Et; [|discriminate]. cbn [rbind] in H.
+  apply x_fresh_tpos in Et as [-> Hk]. cbn [tnum_n] in *. rewrite N.add_0_r in *. inversion H; subst cs lc'.
+  split; [reflexivity|].
+  destruct (x86_load_immediate_ok im s sp (tpos (2 * N.of_nat (List.length remaining))) 0 FR (tpos_loc_ok _ Hk) (tpos_not_temp _))
+    as (s' & EX & V & (P1 & P2 & P3 & P4)).
+  exists s'. split; [now apply exec_straight_steps|]. auto.
+Qed.
 End Store.
+
+(* ---------- duplicate-free labels, decided ---------- *)
+Fixpoint nodupb (l : list string) : bool :=
+  match l with [] => true | x :: r => negb (existsb (String.eqb x) r) && nodupb r end.
+Lemma nodupb_sound l : nodupb l = true -> NoDup l.
+Proof.
+  induction l as [|x r IH]; cbn [nodupb]; intros H; [constructor|].
+  apply andb_true_iff in H as [H1 H2]. constructor; auto.
+  intros Hin. apply negb_true_iff in H1. assert (existsb (String.eqb x) r = true); [|congruence].
+  apply existsb_exists. exists x. split; [exact Hin|apply String.eqb_refl].
+Qed.
+
+(* ---------- the hypotheses are satisfiable: an integer and a (null) producer into a fresh heap ---------- *)
+Definition ex_val (k : N) : Z := match k with 1%N => 42 | 2%N => 0 | 3%N => 7 | _ => 0 end.
+Definition ex_sp : Z := STACK_TOP - 4096.
+Definition ex_state : xstate :=
+  rset (rset (rset (rset (rset (rset (init_state []) 0 (Some ex_sp)) HEAP (Some HEAP_BASE)) FREE (Some (HEAP_BASE + 64)))
+                   5 (Some 42)) 6 (Some 0)) 7 (Some 7).
+Definition ex_store : ctx := [mkb ("x"%string, 0%N) Ext I64; mkb ("y"%string, 1%N) Prd (Decl ("T"%string, 0%N))].
+Definition ex_store_code : list xcode := match x_store ex_store [] 0 with Ok (cs, _) => cs | Err _ => [] end.
+
+Example x86_store_one_block_example :
+  let res := Heap.alloc (Heap.pad 3 (fsts ex_val 0 ex_store)) (abs_heap (HEAP_BASE + 64) ex_state) in
+  x_store ex_store [] 0 = Ok (ex_store_code, 13%N) /\
+  exists s', steps (mk_image ex_store_code) 1 ex_state (pnth 1 (List.length ex_store_code)) s' /\
+     st_eqB (abs_heap (Heap.frontier (snd res)) s') (snd res) /\ fst res = HEAP_BASE /\
+     rget s' 4%N = Some HEAP_BASE /\ hword s' (HEAP_BASE + 40) = 42 /\ hword s' (HEAP_BASE + 56) = 7.
+Proof.
+  intros res.
+  assert (Hx : x_store ex_store [] 0 = Ok (ex_store_code, 13%N)) by (vm_compute; reflexivity).
+  split; [exact Hx|].
+  destruct (mk_image_code_labels ex_store_code) as [HC HL]; [apply nodupb_sound; vm_compute; reflexivity|].
+  destruct (x86_store_one_block_ok (mk_image ex_store_code) 1 ex_store [] 0 ex_store_code 13 ex_state ex_sp HEAP_BASE (HEAP_BASE + 64)
+              (HEAP_BASE + 64) ex_val Hx ltac:(cbn; lia) HC HL)
+    as (s' & ST & EQ & Ef & Rr & Snds & _).
+  - split; [vm_compute; reflexivity|]. repeat split; vm_compute; easy.
+  - vm_compute; reflexivity.
+  - exists 0. split; [lia|]. split; [reflexivity|]. vm_compute; easy.
+  - vm_compute; reflexivity.
+  - intros _. exists 1. split; [lia|]. split; [reflexivity|]. vm_compute; easy.
+  - intros _ H. exfalso. apply H. vm_compute; reflexivity.
+  - intros i b Hi. destruct i as [|[|[|i]]]; cbn in Hi; try discriminate; inversion Hi; subst b;
+      (split; [vm_compute; reflexivity|intros Hb; try (exfalso; apply Hb; reflexivity); vm_compute; reflexivity]).
+  - exists s'. split; [exact ST|]. split; [exact EQ|]. split; [exact Ef|]. split; [exact Rr|].
+    split; [exact (Snds 0%nat ltac:(cbn; lia))|exact (Snds 1%nat ltac:(cbn; lia))].
+Qed.
+
+Print Assumptions x86_store_values_ok.
+Print Assumptions x86_store_one_block_ok.
+Print Assumptions x86_store_empty_ok.
+Print Assumptions x86_store_one_block_example.
